@@ -207,6 +207,7 @@ type loopConn struct {
 	// SUBSCRIBE packets whose first filter equals holdFilter get no answer
 	holdFilter string
 	heldID     uint16
+	after      []byte // sent right behind the CONNACK
 }
 
 func newLoopConn() *loopConn {
@@ -251,6 +252,8 @@ func (c *loopConn) Write(p []byte) (int, error) {
 		switch pkt[0] >> 4 {
 		case tCONNECT:
 			c.in = append(c.in, 0x20, 2, 0, 0)
+			c.in = append(c.in, c.after...)
+			c.after = nil
 		case tPUBLISH:
 			if p, err := decodeClientPacket(pkt); err == nil {
 				switch p.QoS {
